@@ -1635,6 +1635,28 @@ class Engine:
                         self.assume(sp, ("isvar", r, good_v), True)
                         outs.append(cut(sp))
             return outs
+        if re.search(r"iter::Iterator>::count$", nm) and len(args) == 1:
+            # `it.take_while(p).count()`: the number of elements in front of the first one that fails p — the position of that
+            # element, or the length when there is none (only this use of count is analysed as a loop)
+            src = self.deref_val(path, args[0]) if args[0][0] == "ref" else args[0]
+            if src[0] == "app" and re.search(r"iter::Iterator>::take_while(::<.*>)?$", str(src[1])) and len(src[2]) == 2:
+                item = ("sym", "item@bb%d" % bb)
+                if re.search(r"slice::Iter|slice::<impl \[", self_ty_of(src[2][0]) or "") or "slice::Iter" in (t.get("callee_self") or ""):
+                    item = ("ref", ("loc", item, ()), False)
+                outs = []
+                p0 = path.fork()
+                p0.events.append(("iter-exhausted", bb, nm, src))
+                base = src[2][0]
+                outs.append(finish(p0, ("app", "len", (base,))))
+                path.events.append(("iter-item", bb, nm, src, item))
+                for el, pe in self.iter_elements(path, bb, src, item):
+                    if el == ("stop",):
+                        outs.append(finish(pe, ("sym", "index@bb%d" % bb)))
+                    elif el == ("dead",):
+                        outs.append(dead(pe))
+                    else:
+                        outs.append(cut(pe))
+                return outs
         m = re.search(r"iter::Iterator>::(for_each|try_for_each|position|find|any|all|find_map)(::<.*>)?$", nm)
         if m and len(args) >= 2:
             meth = m.group(1)
